@@ -65,19 +65,22 @@ def _raw(nrows, nc):
     return LArr((nrows, nc), lambda s, c: SInt(f(larr._int_term(s), larr._int_term(c))), aid=larr.const_aid("rawfile"), tag=np.dtype(np.int16))
 
 
-def _mk(ctx, nc, fs_key, online=False, cbin=False, no_duration=False):
+def _mk(ctx, nc, fs_key, online=False, cbin=False, no_duration=False, size_consistent=False):
     import spikeglx
     n = nc - 1
     B = ctx.int("B", 2 * nc, 10 ** 12)
     T = ctx.real("claimed_secs", 0, 10 ** 6)
     sites = [(0, i % 2, i // 2) for i in range(n)]
-    # a recording still being acquired has no fileTimeSecs in its metadata yet
-    txt = sglx.imec_meta_text("3B2", sites, ns=None if no_duration else sglx.S(T), fs_hz=FS[fs_key], file_size=None if no_duration else 123)
+    if cbin:
+        k = ctx.int("cbin_frames", 1, 10 ** 10)
+    # a recording still being acquired has no fileTimeSecs in its metadata yet; size_consistent: the metadata's byte count is
+    # the stream's own (only the duration is stale, e.g. metadata edited or copied from a longer run)
+    fsize = None if no_duration else (sglx.S(k * (2 * nc)) if (cbin and size_consistent) else 123)
+    txt = sglx.imec_meta_text("3B2", sites, ns=None if no_duration else sglx.S(T), fs_hz=FS[fs_key], file_size=fsize)
     F = fakefs.install(fakefs.FakeFS())
     F.add("/d/x.imec.ap.meta", True, len(txt), [{"pos": 0, "text": txt}])
     frames = B // (2 * nc)
     if cbin:
-        k = ctx.int("cbin_frames", 1, 10 ** 10)
         F.add("/d/x.imec.ap.cbin", True, B, _raw(k, nc))
         F.add("/d/x.imec.ap.ch", True, 10, "ch")
         path = FakePath("/d/x.imec.ap.cbin")
@@ -91,8 +94,8 @@ def _mk(ctx, nc, fs_key, online=False, cbin=False, no_duration=False):
     return sr, B, T, frames
 
 
-def case_open(ctx, nc, fs_key, online, cbin, no_duration=False):
-    sr, B, T, frames = _mk(ctx, nc, fs_key, online, cbin, no_duration=no_duration)
+def case_open(ctx, nc, fs_key, online, cbin, no_duration=False, size_consistent=False):
+    sr, B, T, frames = _mk(ctx, nc, fs_key, online, cbin, no_duration=no_duration, size_consistent=size_consistent)
     _check_reader(ctx, sr, frames, nc, fs_key, online)
 
 
@@ -224,6 +227,7 @@ def cases(tier):
     cs.append(Case("online_nc4_metadata_without_duration", "case_open", {"nc": 4, "fs_key": "30000", "online": True, "cbin": False, "no_duration": True}))
     cs.append(Case("cbin_nc4", "case_open", {"nc": 4, "fs_key": "30000", "online": False, "cbin": True}))
     cs.append(Case("cbin_nc2_frac", "case_open", {"nc": 2, "fs_key": "frac", "online": False, "cbin": True}))
+    cs.append(Case("cbin_nc4_byte_count_right_duration_stale", "case_open", {"nc": 4, "fs_key": "30000", "online": False, "cbin": True, "size_consistent": True}))
     cs.append(Case("open_later_nc4", "case_open_later", {"nc": 4, "fs_key": "30000", "reopen": False}, timeout_s=1200))
     cs.append(Case("reopen_later_nc2_frac", "case_open_later", {"nc": 2, "fs_key": "frac", "reopen": True}, timeout_s=1200))
     cs.append(Case("arith_385_30000", "case_arith_385", {"fs_key": "30000"}))
@@ -306,7 +310,7 @@ if cbin:
     k = {m.get('cbin_frames', 1)}
     if k > 3_000_000: not_reproduced('compressed stream too large to materialise')
     sites = [(0, i % 2, i // 2) for i in range(nc - 1)]
-    (d / 'x.imec.ap.meta').write_text(sglx.imec_meta_text('3B2', sites, ns=format(T, '.12f'), fs_hz={FS[fk]!r}, file_size=123))
+    (d / 'x.imec.ap.meta').write_text(sglx.imec_meta_text('3B2', sites, ns=format(T, '.12f'), fs_hz={FS[fk]!r}, file_size=(k * nc * 2) if {bool(params.get('size_consistent'))} else 123))
     data = (np.arange(k * nc, dtype=np.int64) % 30000).astype(np.int16).reshape(k, nc)
     data.tofile(d / 'raw.bin')
     mtscomp.compress(d / 'raw.bin', out=d / 'x.imec.ap.cbin', outmeta=d / 'x.imec.ap.ch', sample_rate=float({FS[fk]!r}), n_channels=nc, dtype=np.int16,
